@@ -5,6 +5,7 @@ import (
 	"flag"
 	"fmt"
 	"math"
+	"strings"
 	"testing"
 
 	"github.com/sarchlab/akita/v5/mem"
@@ -21,16 +22,29 @@ import (
 // ---------------------------------------------------------------------------
 
 type c20Op struct {
-	Kind string `json:"k"` // "r" read, "w" write, "c" checkpoint save -> load into a rebuilt storage
+	// "r" read, "w" write, "c" checkpoint save -> load into a rebuilt storage,
+	// "s" save an archive (and the model) for later, "l" load the last saved
+	// archive (saving first when there is none) into the storage named by Mode;
+	// the history continues on that storage with the model as of save time.
+	Kind string `json:"k"`
 	Addr uint64 `json:"a"`
 	Len  uint64 `json:"n"`
 	Seed uint8  `json:"s,omitempty"` // write payload = f(seed, index), all bytes non-zero
+	// "l" only: "fresh" rebuilt storage, "same" the current (since modified)
+	// storage, "used" another storage of the same shape that received the write
+	// (Addr, Len, Seed) first.
+	Mode string `json:"m,omitempty"`
 }
 
 type c20Case struct {
-	Capacity uint64  `json:"capacity"`
-	Unit     uint64  `json:"unit"`
-	Ops      []c20Op `json:"ops"`
+	Capacity uint64 `json:"capacity"`
+	Unit     uint64 `json:"unit"`
+	// Lazy: the harness does not read the whole storage after every op (a
+	// read allocates every unit it touches, so eager comparison makes every
+	// archive dense). Instead a write is read back on its own range only and
+	// the whole contents are compared before and after each load and at the end.
+	Lazy bool    `json:"lazy,omitempty"`
+	Ops  []c20Op `json:"ops"`
 }
 
 // Input classes of one access (computed from the case only, never from the code).
@@ -181,6 +195,65 @@ func newC20Model(capacity uint64) *c20Model {
 	return m
 }
 
+func (m *c20Model) clone() *c20Model {
+	n := &c20Model{capacity: m.capacity}
+	if m.dense != nil {
+		n.dense = append([]byte(nil), m.dense...)
+	} else {
+		n.sparse = make(map[uint64]byte, len(m.sparse))
+		for k, v := range m.sparse {
+			n.sparse[k] = v
+		}
+		n.written = append([][2]uint64(nil), m.written...)
+	}
+	return n
+}
+
+// rollbackKinds compares the model now (m) with the model at save time (snap):
+// undo = some byte differs (a load has something to roll back); freshUnit = a
+// differing byte lies in a unit that was all zero at save time.
+func (m *c20Model) rollbackKinds(snap *c20Model, unit uint64) (undo, freshUnit bool) {
+	unitZero := map[uint64]bool{}
+	isZero := func(u uint64) bool {
+		if z, ok := unitZero[u]; ok {
+			return z
+		}
+		z := true
+		for i := uint64(0); i < unit; i++ {
+			a := u*unit + i
+			if a < u*unit || a >= m.capacity { // wrapped past 2^64 or beyond the capacity
+				break
+			}
+			if snap.get(a) != 0 {
+				z = false
+				break
+			}
+		}
+		unitZero[u] = z
+		return z
+	}
+	visit := func(a uint64) {
+		if m.get(a) != snap.get(a) {
+			undo = true
+			if !freshUnit && isZero(a/unit) {
+				freshUnit = true
+			}
+		}
+	}
+	if m.dense != nil {
+		for a := uint64(0); a < m.capacity; a++ {
+			visit(a)
+		}
+		return
+	}
+	for _, w := range m.written {
+		for i := uint64(0); i < w[1]; i++ {
+			visit(w[0] + i)
+		}
+	}
+	return
+}
+
 func (m *c20Model) get(a uint64) byte {
 	if m.dense != nil {
 		return m.dense[a]
@@ -217,6 +290,7 @@ type c20Stats struct {
 	multiUnitIn  bool // an in-range access spanned >= 2 units
 	ckpts        int
 	ckptNonEmpty bool
+	loads        map[string]bool // load modes executed, with what the rollback had to undo
 }
 
 // c20Compare reads [lo, lo+n) (must be in range) from st and compares with the model.
@@ -305,6 +379,36 @@ func c20Exec(c c20Case) (sig, msg string, stt c20Stats) {
 	}
 	m := newC20Model(c.Capacity)
 	wrote := false
+	stt.loads = map[string]bool{}
+	var savedArchive []byte // last "s" archive and the model at that moment
+	var savedModel *c20Model
+	savedSparse := false // no whole-storage read happened on the storage before that save
+	fullReads := 0       // whole-contents comparisons done on the current storage object
+	full := func(points ...uint64) (string, string) {
+		fullReads++
+		return c20Verify(st, m, c.Unit, points...)
+	}
+	// after: the comparison that follows a read/write op
+	after := func(op c20Op, class string, points ...uint64) (string, string) {
+		if !c.Lazy {
+			return full(points...)
+		}
+		if class == c20In && op.Kind == "w" {
+			return c20Compare(st, m, op.Addr, op.Len)
+		}
+		return "", ""
+	}
+	save := func(where string) ([]byte, string, string) {
+		var buf bytes.Buffer
+		var err error
+		if ok, psig, pmsg := kit.Guard(func() { err = st.SaveCheckpoint(&buf) }); !ok {
+			return nil, psig, pmsg
+		}
+		if err != nil {
+			return nil, "checkpoint-save-error", fmt.Sprintf("%s: %v", where, err)
+		}
+		return buf.Bytes(), "", ""
+	}
 
 	for i, op := range c.Ops {
 		where := fmt.Sprintf("op#%d %s(addr=%d,len=%d) capacity=%d unit=%d", i, op.Kind, op.Addr, op.Len, c.Capacity, c.Unit)
@@ -328,8 +432,22 @@ func c20Exec(c c20Case) (sig, msg string, stt c20Stats) {
 			if err != nil {
 				return "checkpoint-load-error", fmt.Sprintf("%s: %v", where, err), stt
 			}
-			st = fresh
-			if s2, m2 := c20Verify(st, m, c.Unit); s2 != "" {
+			st, fullReads = fresh, 0
+			if c.Lazy { // compare on a second copy loaded from the same archive; continue on the unread one
+				var obs *mem.Storage
+				if ok, psig, pmsg := kit.Guard(func() {
+					obs = mem.NewStorageWithUnitSize(c.Capacity, c.Unit)
+					err = obs.LoadCheckpoint(bytes.NewReader(buf.Bytes()))
+				}); !ok {
+					return psig, pmsg, stt
+				}
+				if err != nil {
+					return "checkpoint-load-error", fmt.Sprintf("%s: %v", where, err), stt
+				}
+				if s2, m2 := c20Verify(obs, m, c.Unit); s2 != "" {
+					return "checkpoint-" + s2, fmt.Sprintf("%s: after save->load: %s", where, m2), stt
+				}
+			} else if s2, m2 := full(); s2 != "" {
 				return "checkpoint-" + s2, fmt.Sprintf("%s: after save->load: %s", where, m2), stt
 			}
 			stt.ckpts++
@@ -337,6 +455,87 @@ func c20Exec(c c20Case) (sig, msg string, stt c20Stats) {
 				stt.ckptNonEmpty = true
 			}
 			stt.classes["ckpt"] = true
+			continue
+		case "s":
+			b, s2, m2 := save(where)
+			if s2 != "" {
+				return s2, m2, stt
+			}
+			savedArchive, savedModel, savedSparse = b, m.clone(), fullReads == 0
+			stt.classes["ckpt-save"] = true
+			continue
+		case "l":
+			if c.Lazy { // whatever went wrong since the last whole comparison is not the load's doing
+				if s2, m2 := full(); s2 != "" {
+					return "deferred-" + s2, fmt.Sprintf("%s: before the load: %s", where, m2), stt
+				}
+			}
+			if savedArchive == nil {
+				b, s2, m2 := save(where)
+				if s2 != "" {
+					return s2, m2, stt
+				}
+				savedArchive, savedModel, savedSparse = b, m.clone(), fullReads == 0
+			}
+			mode := op.Mode
+			if mode != "same" && mode != "used" {
+				mode = "fresh"
+			}
+			where = fmt.Sprintf("op#%d load[%s] capacity=%d unit=%d", i, mode, c.Capacity, c.Unit)
+			target := st
+			restored := savedModel.clone()
+			if restored.dense == nil { // sparse: also re-check every range written since (now rolled back)
+				restored.written = append(restored.written, m.written...)
+			}
+			undo, freshUnit := false, false
+			var err error
+			switch mode {
+			case "same":
+				undo, freshUnit = m.rollbackKinds(savedModel, c.Unit)
+			case "used", "fresh":
+				if ok, psig, pmsg := kit.Guard(func() { target = mem.NewStorageWithUnitSize(c.Capacity, c.Unit) }); !ok {
+					return psig, pmsg, stt
+				}
+				if mode == "used" && op.Len <= c20MaxLen && c20Class(c.Capacity, c.Unit, op.Addr, op.Len) == c20In {
+					junk := c20Payload(op.Seed, op.Len)
+					if ok, psig, pmsg := kit.Guard(func() { err = target.Write(op.Addr, junk) }); !ok {
+						return psig, where + ": " + pmsg, stt
+					}
+					if err != nil {
+						return "inrange-error", fmt.Sprintf("%s: in-range write(%d,%d) on the second storage failed: %v", where, op.Addr, op.Len, err), stt
+					}
+					jm := newC20Model(c.Capacity)
+					jm.write(op.Addr, junk)
+					undo, freshUnit = jm.rollbackKinds(savedModel, c.Unit)
+					if restored.dense == nil {
+						restored.written = append(restored.written, [2]uint64{op.Addr, op.Len})
+					}
+				}
+			}
+			if ok, psig, pmsg := kit.Guard(func() { err = target.LoadCheckpoint(bytes.NewReader(savedArchive)) }); !ok {
+				return psig, where + ": " + pmsg, stt
+			}
+			if err != nil {
+				return "checkpoint-load-error", fmt.Sprintf("%s: %v", where, err), stt
+			}
+			if target != st {
+				fullReads = 0
+			}
+			st, m = target, restored
+			if s2, m2 := full(); s2 != "" {
+				return "checkpoint-load-" + mode + "-" + s2, fmt.Sprintf("%s: contents after the load differ from the contents at save time: %s", where, m2), stt
+			}
+			stt.ckpts++
+			stt.loads["load:"+mode] = true
+			if undo {
+				stt.loads["load:"+mode+",undoes-later-writes"] = true
+			}
+			if freshUnit {
+				stt.loads["load:"+mode+",undoes-write-to-unit-zero-at-save"] = true
+				if mode == "same" && savedSparse {
+					stt.loads["load:same,undoes-write-to-unit-zero-at-save,no-whole-read-before-save"] = true
+				}
+			}
 			continue
 		case "r", "w":
 		default:
@@ -370,7 +569,7 @@ func c20Exec(c c20Case) (sig, msg string, stt c20Stats) {
 		switch class {
 		case c20Zero:
 			// error / no error not asserted; contents must still equal the model
-			if s2, m2 := c20Verify(st, m, c.Unit, op.Addr); s2 != "" {
+			if s2, m2 := after(op, class, op.Addr); s2 != "" {
 				return "zero-len-" + s2, fmt.Sprintf("%s: %s", where, m2), stt
 			}
 		case c20In:
@@ -397,7 +596,7 @@ func c20Exec(c c20Case) (sig, msg string, stt c20Stats) {
 				m.write(op.Addr, payload)
 				wrote = true
 			}
-			if s2, m2 := c20Verify(st, m, c.Unit, op.Addr, end); s2 != "" {
+			if s2, m2 := after(op, class, op.Addr, end); s2 != "" {
 				return "inrange-" + op.Kind + "-" + s2, fmt.Sprintf("%s: contents differ from the model afterwards: %s", where, m2), stt
 			}
 		default: // touches an address >= capacity with length >= 1
@@ -405,13 +604,19 @@ func c20Exec(c c20Case) (sig, msg string, stt c20Stats) {
 			if err == nil {
 				return c20AcceptedSig(op.Kind, class), fmt.Sprintf("%s [%s]: touches an address >= capacity but returned a nil error (data=%v)", where, class, clip(data)), stt
 			}
-			if s2, m2 := c20Verify(st, m, c.Unit, op.Addr, end); s2 != "" {
+			if s2, m2 := after(op, class, op.Addr, end); s2 != "" {
 				if op.Kind == "w" && s2 == "contents" {
 					return c20SigPartial, fmt.Sprintf("%s [%s]: returned error %q but changed the contents: %s", where, class, err, m2), stt
 				}
 				return "oob-" + op.Kind + "-" + s2, fmt.Sprintf("%s [%s]: after the rejected access: %s", where, class, m2), stt
 			}
 			stt.oobRejected++
+		}
+	}
+	if c.Lazy {
+		stt.classes["lazy-comparison"] = true
+		if s2, m2 := full(); s2 != "" {
+			return "deferred-" + s2, fmt.Sprintf("capacity=%d unit=%d: at the end of the history: %s", c.Capacity, c.Unit, m2), stt
 		}
 	}
 	return "", "", stt
@@ -576,17 +781,34 @@ const c20MaxOps = 24
 func genC20(rt *rapid.T, s *kit.Session) c20Case {
 	c := c20Case{}
 	c.Capacity, c.Unit = genC20Shape(rt)
+	c.Lazy = rapid.Bool().Draw(rt, "lazy")
 	one := func(t *rapid.T) {
 		if len(c.Ops) >= c20MaxOps {
 			return
 		}
 		var op c20Op
 		switch k := rapid.IntRange(0, 19).Draw(t, "kind"); {
-		case k < 2:
+		case k < 1:
 			op.Kind = "c"
 			c.Ops = append(c.Ops, op)
 			return
-		case k < 11:
+		case k < 3:
+			op.Kind = "s"
+			c.Ops = append(c.Ops, op)
+			return
+		case k < 5:
+			op.Kind = "l"
+			op.Mode = rapid.SampledFrom([]string{"fresh", "same", "same", "used"}).Draw(t, "mode")
+			if op.Mode == "used" { // the write the other storage receives before the load (in range)
+				op.Addr, op.Len = genC20Safe(t, c.Capacity, c.Unit)
+				if op.Addr >= c.Capacity {
+					op.Addr, op.Len = 0, 1
+				}
+				op.Seed = rapid.Uint8().Draw(t, "seed")
+			}
+			c.Ops = append(c.Ops, op)
+			return
+		case k < 13:
 			op.Kind = "w"
 			op.Seed = rapid.Uint8().Draw(t, "seed")
 		default:
@@ -643,10 +865,10 @@ func c20ShapeClasses(c c20Case) []string {
 func TestC20Storage(t *testing.T) {
 	s := kit.Begin(t, "C20", "storage",
 		"capacity from {1..16, k*unit+-2 (k<=8), uniform<=64KiB (<=2048 units), <unit, 2^64-1-k (k<=8 or <=2*unit+2), {2^20,2^32,2^40,2^63,3*2^61}+-5}; "+
-			"unit from {1, primes<=4093, 2^0..2^16, 1..300} (<=4096 for capacities >128KiB); 1..24 ops (rt.Repeat, average 10; 45% write, 45% read, 10% checkpoint save->load into a rebuilt storage); "+
+			"unit from {1, primes<=4093, 2^0..2^16, 1..300} (<=4096 for capacities >128KiB); 1..24 ops (rt.Repeat, average 10; 40% write, 35% read, 5% checkpoint save->load into a rebuilt storage, 10% save an archive, 10% load the last archive (saving first if none) into {a rebuilt storage, the same since-modified storage (x2), another storage of the same shape that received an in-range write}); "+
 			"addresses from {capacity+-3, unit boundary+-2, in range, capacity-k*unit+-2, 2^64-1-k, uniform, an earlier op's address+-2}; lengths from {0..3, j*unit+-2 (j<=3), to next unit boundary+-1, to capacity+-2, to 2^64 -1..+3}, never above 128KiB+8. "+
 			"Oracle: byte-array model; in-range access => nil error and exact bytes; access of length>=1 touching an address >= capacity (or reaching 2^64) => error and contents equal to the model "+
-			"(whole contents for capacities <=128KiB, else every range ever written plus 2*unit+2 windows around the access ends, 0 and capacity); contents compared after every op; zero-length accesses: only contents compared. "+
+			"(whole contents for capacities <=128KiB, else every range ever written plus 2*unit+2 windows around the access ends, 0 and capacity); contents compared after every op (half of the cases: \"lazy\" -- a read allocates the units it touches, so there a write is only read back on its own range and the whole contents are compared before and after each load and at the end, which keeps archives sparse); zero-length accesses: only contents compared; after a load the storage must equal the model as of save time (everything written since is rolled back) and the history continues from there. "+
 			"Accesses in an input class with a listed finding are replaced by in-range or start>capacity accesses and counted as excluded. "+
 			"Non-trivial: the history executed >=1 out-of-range access of length>=1 and >=1 in-range read that returned previously written non-zero bytes")
 	defer s.End()
@@ -661,6 +883,9 @@ func TestC20Storage(t *testing.T) {
 		}
 		classes := c20ShapeClasses(c)
 		for k := range st.classes {
+			classes = append(classes, k)
+		}
+		for k := range st.loads {
 			classes = append(classes, k)
 		}
 		if st.multiUnitIn {
@@ -692,6 +917,35 @@ func TestC20Storage(t *testing.T) {
 		c := genC20(rt, s)
 		run(rt, c)
 	})
+}
+
+// TestC20FixedRollback is a fixed history of the rollback shape: save, write
+// into a unit that was untouched at save time, load the archive into the same
+// storage, read. It runs through the same executor and oracle as the search.
+func TestC20FixedRollback(t *testing.T) {
+	s := kit.Begin(t, "C20", "fixed-rollback", "three fixed histories: save, write to a unit untouched at save time, load into {same, used, fresh} storage, read back")
+	defer s.End()
+	if kit.ReplayMode() {
+		t.Skip()
+	}
+	for _, mode := range []string{"same", "used", "fresh", "same-eager"} {
+		c := c20Case{Capacity: 8192, Unit: 1024, Lazy: mode != "same-eager", Ops: []c20Op{
+			{Kind: "w", Addr: 10, Len: 4, Seed: 1},
+			{Kind: "s"},
+			{Kind: "w", Addr: 2563, Len: 3, Seed: 9},
+			{Kind: "w", Addr: 11, Len: 2, Seed: 5},
+			{Kind: "l", Mode: strings.TrimSuffix(mode, "-eager"), Addr: 5000, Len: 40, Seed: 7},
+			{Kind: "r", Addr: 2560, Len: 16},
+			{Kind: "r", Addr: 5000, Len: 16},
+			{Kind: "r", Addr: 8, Len: 8},
+		}}
+		sig, msg, _ := c20Exec(c)
+		if sig != "" {
+			s.Fail(t, c, sig, "%s", msg)
+			return
+		}
+		s.Note(c, false, "fixed-rollback:"+mode)
+	}
 }
 
 // ------------------- dedicated reproductions of listed findings -------------------
